@@ -17,6 +17,7 @@ from vf import instrument as I
 from vf.gen import rng_for, synth_hourly
 
 ID = "C18"
+TECHNIQUE = "runtime monitoring: icontract post-conditions on the real segmentation and bin-feature functions (month ownership from zoneinfo, bins sum to T, fill order) + the repository's own tests run under the same contracts (thorough)"
 LEVEL = "exploration"
 NEEDS_NUMBA = False
 CASE_TIMEOUT = 2400
